@@ -378,7 +378,13 @@ impl Watch {
         if pkt.v == 5 && pkt.qos > 0 {
             let id = pkt.id.unwrap();
             if let Some(mx) = self.m.rm_recv {
-                if !self.m.in_unans.contains(&id) {
+                if self.m.in_unans.contains(&id) {
+                    // the peer re-uses an id that is still unanswered on this connection:
+                    // a protocol violation of the peer; delivery and rejection are both fine
+                    if delivered.is_empty() && errored {
+                        return true;
+                    }
+                } else {
                     if self.m.in_unans.len() >= mx as usize {
                         self.stats.hit("c12_inbound_exceeded");
                         let disc = sends.iter().any(|p| p.kind == DISCONNECT && p.rc == Some(0x93));
